@@ -401,7 +401,10 @@ def shiftbound_cases():
     for c in SHIFT_COUNTS:
         lay = {"base": 0o1000, "link": None, "pad": 2, "consts": {"cb0": c, "cb1": -c, "ca0": c, "ca1": -c}}
         back = (lambda t: X.observe_wrap(B("BShr", ("grp", "paren", t), dec(65530)), 0)) if c <= X.MAX_SHIFT else (lambda t: t)
-        for a in (dec(1), dec(-3), ("sym", "lb0"), dec(0)):
+        # An address times 2^c with c > 4096 is reported as 'recursive-definition' by deferred.py (MAX_COEFFICIENT_BITS,
+        # a heuristic against rings of definitions): reported to the coordinator as a defect candidate, input
+        # 'lb0: .dword (lb0 << 5000.) >> 4998.'; until that is decided the address operand is used with refused counts only.
+        for a in (dec(1), dec(-3), dec(0)) + ((("sym", "lb0"),) if c > X.MAX_SHIFT else ()):
             for pos, neg in ((dec(c), dec(-c)), (("sym", "cb0"), ("sym", "cb1")), (("sym", "ca0"), ("sym", "ca1"))):
                 out.append(("shiftbound", back(B("BShl", a, pos)), lay, 1))
                 out.append(("shiftbound", back(B("BLsh", a, pos)), lay, 1))
@@ -413,6 +416,14 @@ def shiftbound_cases():
             out.append(("shiftbound", B("BAdd", ("grp", "paren", B("BDiv", one, dec(0))), ("grp", "paren", B("BShl", one, dec(c)))), lay, 2))
             out.append(("shiftbound", B("BAdd", ("grp", "paren", B("BShl", one, dec(c))), ("grp", "paren", B("BDiv", one, dec(0)))), lay, 2))
             out.append(("shiftbound", B("BMul", ("grp", "angle", B("BLsh", ("sym", "la0"), ("sym", "ca0"))), dec(0)), lay, 2))
+    # an address shifted by a count below that heuristic's limit
+    lay = {"base": 0o1000, "link": None, "pad": 2, "consts": {"cb0": 4000, "cb1": -4000, "ca0": 4000, "ca1": -4000}}
+    for a in (("sym", "lb0"), ("sym", "la0"), ("dot",)):
+        for pos, neg in ((dec(4000), dec(-4000)), (("sym", "cb0"), ("sym", "cb1")), (("sym", "ca0"), ("sym", "ca1"))):
+            back = lambda t: X.observe_wrap(B("BShr", ("grp", "paren", t), dec(3990)), 0)
+            out.append(("shiftbound", back(B("BShl", a, pos)), lay, 1))
+            out.append(("shiftbound", back(B("BLsh", a, pos)), lay, 1))
+            out.append(("shiftbound", B("BShr", a, neg), lay, 1))
     lay = {"base": 0o1000, "link": None, "pad": 2, "consts": {"cb0": 40, "cb1": 16, "ca0": 64, "ca1": 17}}
     one = dec(1)
     for inner in (B("BLsh", one, ("sym", "cb0")), B("BShl", one, ("sym", "ca0")), B("BShl", one, ("sym", "ca1")), B("BAdd", B("BShl", one, ("sym", "cb1")), one)):
@@ -489,11 +500,22 @@ def run_cases(rng, cases):
         jobs.append((([("t.mac", src)],), {}))
         recs.append({"kind": kind, "tree": tree, "lay": lay, "tokens": toks, "text": text, "src": src,
                      "depth": case[3] if len(case) > 3 else (X.depth_of(tree) if tree is not None else 0)})
-    outs = impl.pmap("assemble", jobs, chunksize=64)
-    # a watchdog hit on a starved machine is not an observation: such cases are run again, alone, with a long limit
+    # the cases with absurd shift counts run on few processes: a tree that computes such a shift takes 0.5 GB each
+    heavy = [i for i, c in enumerate(cases) if c[0] == "shiftbound"]
+    light = [i for i, c in enumerate(cases) if c[0] != "shiftbound"]
+    outs = [None] * len(jobs)
+    for idx, procs, chunk in ((light, None, 64), (heavy, 4, 4)):
+        if idx:
+            for i, o in zip(idx, impl.pmap("assemble", [jobs[i] for i in idx], procs=procs, chunksize=chunk)):
+                outs[i] = o
+    # a watchdog hit on a starved machine is not an observation: such cases are run again, alone, with a long limit;
+    # after three of them hung again the remaining ones are taken as they are
+    confirmed = 0
     for i, o in enumerate(outs):
-        if o["outcome"] in ("hang", "harness-error"):
-            outs[i] = impl.assemble(*jobs[i][0], watchdog=120)
+        if o["outcome"] in ("hang", "harness-error") and confirmed < 3:
+            outs[i] = impl.assemble(*jobs[i][0], watchdog=60)
+            if outs[i]["outcome"] in ("hang", "harness-error"):
+                confirmed += 1
     out_recs = []
     for r, o in zip(recs, outs):
         raw = {"outcome": o["outcome"], "code": o.get("code"), "errors": sorted({d[1] for d in o["diags"] if d[0] != "warning"}), "crash": o.get("crash")}
@@ -612,7 +634,8 @@ def explore(rep, br, tier, seed):
     # the finite table facts, evaluated in the same coqc session style (separate tiny file)
     for r, code in zip(recs, codes):
         if code & 1:
-            rep.disagree("Model.ExprParse/Lexer/GenOperators vs '.dword' on the real assembler", {"expression": r["text"]}, impl=r["raw"])
+            rep.disagree("Model.ExprParse/Lexer/GenOperators vs '.dword' on the real assembler",
+                         {"expression": r["text"], "files": [["t.mac", r["src"]]], "evaluation": r.get("iteration", 0)}, impl=r["raw"])
         if code & 2:
             report_violation(rep, r, enc, "judged in coqc")
     ops = set()
